@@ -89,7 +89,7 @@ def scenario_of(ops, line):
     return ops[s:e]
 
 
-def run_pipeline(binp, scens, workdir, tag, mutate_per=0, rng=None):
+def run_pipeline(binp, scens, workdir, tag, mutate_per=0, rng=None, nouf_bin=None):
     """encode -> (mutate) -> harness -> merge -> driver.  Returns (ops, verdicts, crashes)"""
     raw = os.path.join(workdir, tag + ".raw.ops")
     enc = os.path.join(workdir, tag + ".enc.ops")
@@ -118,14 +118,27 @@ def run_pipeline(binp, scens, workdir, tag, mutate_per=0, rng=None):
             ops.append({"op": "scenario", "kind": k, "sid": base + j})
             ops.extend(s)
     # drop the abstract messages before handing to the harness (keeps lines short) but keep them for the driver
+    if nouf_bin:
+        # C17: the driver models the build WITHOUT parse_unknown_fields; the default build's answers ride along as impl2
+        ops2 = []
+        for o in ops:
+            ops2.append(o)
+            if o.get("op") == "scenario":
+                ops2.append({"op": "config", "unknownFields": False})
+        ops = ops2
     opsf = os.path.join(workdir, tag + ".ops")
     with open(opsf, "w") as f:
         for o in ops:
             f.write(json.dumps(o) + "\n")
     out = os.path.join(workdir, tag + ".impl")
-    answers, crashes = runner.run_harness(binp, opsf, out)
     merged = os.path.join(workdir, tag + ".merged")
-    runner.merge(opsf, answers, merged)
+    if nouf_bin:
+        answers2, _ = runner.run_harness(binp, opsf, out)
+        answers, crashes = runner.run_harness(nouf_bin, opsf, out + ".nouf")
+        runner.merge(opsf, answers, merged, answers2)
+    else:
+        answers, crashes = runner.run_harness(binp, opsf, out)
+        runner.merge(opsf, answers, merged)
     rc, err, verdicts = runner.driver_check(merged, os.path.join(workdir, tag + ".verdict"))
     if rc != 0:
         raise RuntimeError("driver failed rc=%s: %s" % (rc, err[-500:]))
@@ -196,7 +209,16 @@ def main():
     else:
         corpus_scens = props.corpus_scenarios(pid)
         scens = corpus_scens + cfg["families"](rng, tier)
-    ops, verdicts, crashes = run_pipeline(binp, scens, workdir, "main", mutate_per=(0 if args.replay else cfg.get("mutate_per", {}).get(tier, 0)), rng=rng)
+    nouf_bin = None
+    if cfg.get("two_builds"):
+        rc2, hout2, nouf_bin = runner.harness_build(features_default=False)
+        if rc2 != 0:
+            errs = "\n".join(l for l in hout2.splitlines() if l.startswith("error") or "-->" in l or "|" in l)[-3000:]
+            p = write_replay(workdir, "%s-nobuild.json" % pid, {"property": pid, "what": "the crate does not compile with the parse_unknown_fields feature turned off: the failing configuration is the replay", "command": "cd /repo && cargo build --offline --no-default-features", "compiler_output": errs})
+            print("VIOLATION property=%s replay=%s" % (pid, p))
+            finish(pid, tier, seed, t0, cfg, names, discharged, 0, {}, [], 1, notes + ["--no-default-features build failed"], axioms, forbidden, tsum)
+            sys.exit(1)
+    ops, verdicts, crashes = run_pipeline(binp, scens, workdir, "main", mutate_per=(0 if args.replay else cfg.get("mutate_per", {}).get(tier, 0)), rng=rng, nouf_bin=nouf_bin)
 
     stats = analyse(pid, cfg, ops, verdicts, known)
     # ---- verdict
